@@ -107,7 +107,7 @@ var TemplateNames = []string{
 	"leading-lookahead", "bumpalong-loop", "loop-then-x", "loop-ending-loop-body", "alt-shared-prefix",
 	"alt-shared-set-prefix", "atomic-alternation", "nested-atomic", "lookbehind-loop", "conditional-loop",
 	"wide-literal", "negated-first-set", "counted-group-loop", "lazy-loop-then-x", "alt-with-empty",
-	"start-anchor-G", "backref-after-loop", "lookaround-conditional", "alt-counted-set-prefix", "loop-then-optional-group", "group-loop-overlapping-head", "long-literal", "lookbehind-group-loop", "landmark-overlap",
+	"start-anchor-G", "backref-after-loop", "lookaround-conditional", "alt-counted-set-prefix", "loop-then-optional-group", "group-loop-overlapping-head", "long-literal", "lookbehind-group-loop", "landmark-overlap", "lazy-group-loop", "capture-loop-backref", "long-counted-set", "balancing-pop",
 }
 
 // Template builds template number k with random leaves.
@@ -281,6 +281,46 @@ func (t *T) Template(k int) *Node {
 		}
 		n.Kids = append(n.Kids, L([]rune{a, b}[t.R.Intn(2)]))
 		return n
+	case "lazy-group-loop":
+		// a lazy counted GROUP loop that must iterate beyond its minimum, plain or inside a look-behind
+		w := t.word(1 + t.R.Intn(2))
+		q := [][2]int{{1, 2}, {1, 3}, {0, 2}, {2, 4}, {1, -1}}[t.R.Intn(5)]
+		var grp *Node
+		if t.R.Intn(3) == 0 {
+			grp = t.Cap(S(w))
+		} else {
+			grp = NC(S(w))
+		}
+		core := Cat(L(t.l()), RepL(grp, q[0], q[1]))
+		if t.R.Intn(2) == 0 {
+			return Cat(t.tail(), Look(false, t.R.Intn(3) == 0, core), L(t.l()), t.tail())
+		}
+		return Cat(t.tail(), core, L(t.l()), t.tail())
+	case "capture-loop-backref":
+		// a leading capture that starts with a loop, referenced later: (a*b)\1
+		first := t.Cap(Cat(t.loop(t.unit()), t.unit()))
+		mid := []*Node{&Node{K: KEmpty}, L(t.l()), Rep(Esc("s"), 0, 1)}[t.R.Intn(3)]
+		return Cat(first, mid, &Node{K: KBackref, Ref: 1}, t.tail())
+	case "long-counted-set":
+		// a class repeated a fixed number of times beyond the analysers' 20-iteration cut-off
+		n := 18 + t.R.Intn(20)
+		return Cat(Rep(t.set(), n, n), S(t.word(1+t.R.Intn(2))), t.tail())
+	case "balancing-pop":
+		// pushes that are only partly popped: the pushed group keeps captures after the pops
+		a, b := t.l(), t.l()
+		t.gid = 1
+		push := &Node{K: KGroup, Capture: true, GID: 1, Name: "a", Kids: []*Node{L(a)}}
+		t.gid = 2
+		pop := &Node{K: KBalance, GID: 2, Ref: 1, ByName: true, Kids: []*Node{L(b)}}
+		if t.R.Intn(2) == 0 {
+			pop.Name = "c"
+		}
+		pq := [][2]int{{1, 1}, {1, 2}, {0, 1}, {1, -1}}[t.R.Intn(4)]
+		var popNode *Node = pop
+		if !(pq[0] == 1 && pq[1] == 1) {
+			popNode = Rep(pop, pq[0], pq[1])
+		}
+		return Cat(Rep(push, 1, -1), popNode, t.tail())
 	case "lookaround-conditional":
 		return Cat(&Node{K: KCondExpr, Kids: []*Node{Look(t.R.Intn(2) == 0, t.R.Intn(2) == 0, Cat(t.unit(), t.loop(t.unit()))), Cat(t.unit(), t.loop(t.unit())), Cat(t.loop(t.unit()), t.unit())}}, t.tail())
 	}
